@@ -768,6 +768,6 @@ func init() {
 			"contents behind maps and pointers the struct shares are exempt from the failure clause, as the statement says",
 			"whether fields of an element survive a replace of a []struct is left open (not compared); maps always merge (doc comment of Unpack)",
 		},
-		Spaces: func(tier string) []*core.Space { return []*core.Space{c13Extra(), c13Collections(), c13Space()} },
+		Spaces: func(tier string) []*core.Space { return []*core.Space{c13Extra(), c13InitDefaultsFailures(), c13Collections(), c13Space()} },
 	})
 }
